@@ -21,7 +21,7 @@ def collect():
 
 
 # checks whose theorems and correspondence have been run to completion by the lead on /repo (others stay in not_applicable until then)
-READY = ['C13', 'C08', 'C16', 'C17', 'C20', 'C05', 'C18', 'C01', 'C12', 'C02', 'C07', 'C14', 'C19', 'C09', 'C03', 'C06', 'C10', 'C15']
+READY = ['C13', 'C08', 'C16', 'C17', 'C20', 'C05', 'C18', 'C01', 'C12', 'C02', 'C07', 'C14', 'C19', 'C09', 'C03', 'C06', 'C10', 'C15', 'C04', 'C11']
 
 CHECKS = {pid: info for pid, info in collect().items() if pid in READY}
 
